@@ -19,7 +19,7 @@ SWEEPS = {
     'C05': [['words']],
     'C06': [['bits']],
     'C07': [['stream', '2'], ['stream', '1']],
-    'C08': [['words'], ['bits'], ['events'], ['total'], ['keyboard', '2'], ['keyboard', '1'], ['stream', '2'], ['stream', '1']],
+    'C08': [['words'], ['bits'], ['events'], ['total'], ['soak'], ['keyboard', '2'], ['keyboard', '1'], ['stream', '2'], ['stream', '1']],
     'C14': [['events']],
     'C18': [['keyboard', '2'], ['keyboard', '1'], ['bits']],
     'C19': [['stream', '2'], ['stream', '1']],
@@ -33,8 +33,17 @@ def sweep(binpath, args, timeout=900):
 
 
 def hit_from_sweep(prop, binpath, args, line):
-    # line: FAILS kanicex <scenario> <values...>
+    # line: FAILS kanicex <scenario> <values...>   |   FAILS soak PANIC: <message>
     parts = line.split()
+    if parts[1] == 'soak':
+        return {
+            'obligation': 'standin/sweep-soak',
+            'text': 'native soak run of the real code: long monotonous histories must not panic',
+            'extra': {
+                'counterexample': {'found_by': 'native sweep `replayer sweep soak`', 'description': line, 'scenario': 'soak', 'values': []},
+                'native_replay': {'cmd': ['sweep', 'soak'], 'output': line, 'reproduced': True},
+            },
+        }
     cmd = parts[1:]
     rc, out, err = native.run(binpath, cmd)
     return {
